@@ -1622,6 +1622,9 @@ fn cover_proj(profile: &str, p: &Pools, rng: &mut Rng, out: &mut Vec<String>, pi
             } } }
         }
         "C13" => {
+            for unit in ["Rad", "Deg"] { for code in 0..8 { for neg in [false, true] {
+                emit1s("inv_trig_proj", vec![t(unit), Val::I(code), Val::B(neg)], F2, out, pid);
+            } } }
             for m in [7i128, 100, 5000, 100_000, 1_000_000, 3_000_000] { for sg in [1i128, -1] {
                 emit1s("trig_big_proj", vec![vs(q(sg * (3 * m + 1), 3))], F2, out, pid);
             } }
@@ -1631,6 +1634,14 @@ fn cover_proj(profile: &str, p: &Pools, rng: &mut Rng, out: &mut Vec<String>, pi
             }
         }
         "C08" => {
+            for rep in 0..12 {
+                // projective and affine 4x4 matrices, dense 3x3 ones
+                let c = |rng: &mut Rng| Vector4::new(small(rng), small(rng), small(rng), small(rng));
+                let m = if rep % 3 == 2 { Val::M3(loop { let m = Matrix3::from_cols(rv3(rng), rv3(rng), rv3(rng)); if m.determinant().n != 0 { break m; } }) }
+                        else { Val::M4(loop { let m = if rep % 3 == 0 { Matrix4::from_cols(c(rng), c(rng), c(rng), c(rng)) } else { Matrix4::from_cols(rv3(rng).extend(q(0, 1)), rv3(rng).extend(q(0, 1)), rv3(rng).extend(q(0, 1)), rv3(rng).extend(q(1, 1))) };
+                                               if m.determinant().n != 0 { break m; } }) };
+                emit1s("inv_vec_agree_proj", vec![m, Val::V3(Vector3::new(small_nz(rng), small_nz(rng), small_nz(rng)))], F2, out, pid);
+            }
             for kind in ["DecQ", "Dec3", "DecQ_mul", "Matrix4", "Mat_of_concat"] {
                 for (e1, e2, f1, f2) in [(0i64, 0i64, 0i64, 0i64), (-5, 0, 0, 0), (0, -5, 6, 0), (5, -5, 0, 6), (-5, 5, 6, -6), (3, 3, -6, 6), (-3, -2, 6, 6)] {
                     let nz3 = |rng: &mut Rng| Vector3::new(small_nz(rng), small_nz(rng), small_nz(rng));
@@ -1700,6 +1711,38 @@ fn cover_proj(profile: &str, p: &Pools, rng: &mut Rng, out: &mut Vec<String>, pi
                 emit1s("pred_near_proj", vec![t(pred), m, Val::I(cc as i64), Val::I(rr as i64), Val::I(code), Val::I(e)], F2, out, pid);
             } } } }
         }
+        "C17" => {
+            // every spelling bit for bit, on operands that are not exactly representable
+            let nz3 = |rng: &mut Rng| Vector3::new(small_nz(rng), small_nz(rng), small_nz(rng));
+            for _ in 0..3 {
+                let m3 = |rng: &mut Rng| Val::M3(Matrix3::from_cols(rv3(rng), rv3(rng), rv3(rng)));
+                let m4 = |rng: &mut Rng| { let c = |rng: &mut Rng| Vector4::new(small(rng), small(rng), small(rng), small(rng)); Val::M4(Matrix4::from_cols(c(rng), c(rng), c(rng), c(rng))) };
+                let m2 = |rng: &mut Rng| Val::M2(Matrix2::from_cols(rv2(rng), rv2(rng)));
+                let qq = |rng: &mut Rng| Val::Q(Quaternion::from_sv(small_nz(rng), nz3(rng)));
+                for op in ["add", "sub"] {
+                    emit1s("forms_eq_proj", vec![t(op), Val::V3(nz3(rng)), Val::V3(nz3(rng))], F2, out, pid);
+                    emit1s("forms_eq_proj", vec![t(op), m3(rng), m3(rng)], F2, out, pid);
+                    emit1s("forms_eq_proj", vec![t(op), m4(rng), m4(rng)], F2, out, pid);
+                    emit1s("forms_eq_proj", vec![t(op), qq(rng), qq(rng)], F2, out, pid);
+                    emit1s("forms_eq_proj", vec![t(op), Val::P3(Point3::from_vec(nz3(rng))), Val::V3(nz3(rng))], F2, out, pid);
+                }
+                for op in ["mul_s", "div_s"] {
+                    let s = || vs(q(3, 1));
+                    emit1s("forms_eq_proj", vec![t(op), Val::V3(nz3(rng)), s()], F2, out, pid);
+                    emit1s("forms_eq_proj", vec![t(op), m2(rng), s()], F2, out, pid);
+                    emit1s("forms_eq_proj", vec![t(op), m3(rng), s()], F2, out, pid);
+                    emit1s("forms_eq_proj", vec![t(op), m4(rng), s()], F2, out, pid);
+                    emit1s("forms_eq_proj", vec![t(op), qq(rng), s()], F2, out, pid);
+                    emit1s("forms_eq_proj", vec![t(op), Val::P3(Point3::from_vec(nz3(rng))), s()], F2, out, pid);
+                }
+                emit1s("forms_eq_proj", vec![t("mul"), m3(rng), m3(rng)], F2, out, pid);
+                emit1s("forms_eq_proj", vec![t("mul"), m4(rng), m4(rng)], F2, out, pid);
+                emit1s("forms_eq_proj", vec![t("mul"), m3(rng), Val::V3(nz3(rng))], F2, out, pid);
+                emit1s("forms_eq_proj", vec![t("mul"), qq(rng), qq(rng)], F2, out, pid);
+                emit1s("forms_eq_proj", vec![t("neg"), m3(rng)], F2, out, pid);
+                emit1s("forms_eq_proj", vec![t("neg"), qq(rng)], F2, out, pid);
+            }
+        }
         "C14" => {
             for tc in 0..5 { for ty in 0..4 {
                 let x = match ty { 0 => Val::V3(rv3(rng) + Vector3::new(q(7, 1), q(7, 1), q(7, 1))), 1 => Val::V2(rv2(rng) + Vector2::new(q(9, 1), q(9, 1))),
@@ -1738,6 +1781,24 @@ fn cover_proj(profile: &str, p: &Pools, rng: &mut Rng, out: &mut Vec<String>, pi
                         }
                         emit1s("look_proj", a, F2, out, pid);
                     }
+                }
+            }
+            // up a hair off the viewing direction (1e-2 .. 1e-5 rad): Matrix3 / Matrix4 / rotations / Decomposed
+            for (inner, form, ty) in [("mat3_look_to", "lh", ""), ("mat3_look_to", "rh", ""), ("mat4_look_to", "lh", ""), ("mat4_look_to", "rh", ""), ("mat4_look_at", "rh", ""),
+                                      ("rot_look_at", "m", "Quaternion"), ("rot_look_at", "m", "Basis3"), ("tf_look_at", "rh", "Matrix3_3"), ("tf_look_at", "lh", "DecQ"), ("tf_look_at", "rh", "Dec3")] {
+                for ue in [-2i64, -3, -5] {
+                    let iv = |rng: &mut Rng| Vector3::new(Q::int(rng.range(-6, 6) as i128), Q::int(rng.range(-6, 6) as i128), Q::int(rng.range(-6, 6) as i128));
+                    let (dir, u0) = loop { let (d0, u0) = (iv(rng), iv(rng)); let c = d0.cross(u0); if c.x.n != 0 || c.y.n != 0 || c.z.n != 0 { break (d0, u0); } };
+                    let eye = Point3::from_vec(iv(rng));
+                    let mut a = vec![t(inner), t(form), Val::I(ue)];
+                    match inner {
+                        "mat3_look_to" => { a.push(Val::V3(dir)); a.push(Val::V3(u0)); }
+                        "mat4_look_to" => { a.push(Val::P3(eye)); a.push(Val::V3(dir)); a.push(Val::V3(u0)); }
+                        "mat4_look_at" => { a.push(Val::P3(eye)); a.push(Val::P3(eye + dir)); a.push(Val::V3(u0)); }
+                        "rot_look_at" => { a.push(t(ty)); a.push(Val::V3(dir)); a.push(Val::V3(u0)); }
+                        _ => { a.push(t(ty)); a.push(Val::P3(eye)); a.push(Val::P3(eye + dir)); a.push(Val::V3(u0)); }
+                    }
+                    emit1("look_near_proj", a, out, pid);
                 }
             }
             // two dimensions, exact: every 2-D entry point (the random part above reaches each only now and then)
@@ -1804,7 +1865,7 @@ pub fn drive2(profile: &str, seed: u64, count: usize) -> Vec<String> {
         "C01" => gen_c01, "C05" => gen_c05, "C06" => gen_c06, "C07" => gen_c07, "C08" => gen_c08, "C09" => gen_c09, "C10" => gen_c10,
         "C11" => gen_c11, "C13" => gen_c13, "C14" => gen_c14, "C15" => gen_c15,
         "C16" => gen_c16, "C18" => gen_c18, "C19" => gen_c19, "C20" => gen_c20,
-        "C02" | "C03" | "C04" | "C12" => gen_none,     // the operator table drives these; only the sweeps below are added here
+        "C02" | "C03" | "C04" | "C12" | "C17" => gen_none,     // the operator table drives these; only the sweeps below are added here
         _ => return Vec::new(),
     };
     let count = if gen as usize == gen_none as usize { 0 } else { count };
